@@ -702,6 +702,7 @@ func enumerate(k, d int, f func([]int)) {
 }
 
 func TestCheck(t *testing.T) {
+	vk.UseT(t)
 	r := vk.Start("C11", "model_checking", 100*time.Second, 8*time.Minute)
 	defer vk.CleanScratch()
 	wd, err := buildWorld()
